@@ -1,4 +1,6 @@
 import GB.C10.Proofs
+import GB.C10.StatusJson
+import GB.C09.Props
 import GB.Generated.Facts
 /-
   C10 — property theorems: gRPC outcomes map to the right HTTP status and a decodable error body.
@@ -389,6 +391,55 @@ theorem C10_415 (sc : Scenario) (env : Env) (h1 : sc.inj ≠ .router) (h2 : sc.i
   simp only [natBindErr, unsupportedMediaTypeErr] at hw ⊢
   simp [failResp, hw]
   decide
+
+/-! ### part of the transcoder law discharged with the C09 slice -/
+
+/-- **A Status body without details decodes back to the status** — the decode-back law that `C10_failure_body`
+    takes as a hypothesis, PROVED for the sub-case `details = []` from the C09 slice: `code` is an int32 field and
+    `message` a string field, whose JSON codecs round-trip by `C09_roundtrip` (for every message, incl. quotes,
+    control characters, non-ASCII: escaping is the tokenizer's business, `Tokenizer.roundtrip`). The body is
+    non-empty. Covers every error made inside grpcbridge (router, Bind, decode, deadline, EOF, …: none has details)
+    and every target status without details. With details the law stays a hypothesis (protojson's `Any` expansion). -/
+theorem C10_status_body_roundtrip_no_details (ops : GB.C09.FloatOps) (hl : GB.C09.FloatLaws ops) (tk : Tokenizer)
+    (st : St) (hd : st.details = []) (hc : st.code < 2 ^ 31) :
+    ∃ b, jsonStatusEnc ops tk st = .ok b ∧ jsonStatusDec ops tk b = some st ∧ b ≠ [] := by
+  obtain ⟨jc, hjc, gc, hdc, hrc⟩ := C09_roundtrip ops hl statusOpts .sing .int32 (.sing (some (.int st.code)))
+    trivial (by
+      show GB.C09.Typed .int32 (.int st.code)
+      simp only [GB.C09.Typed]
+      constructor <;> omega)
+  obtain ⟨jm, hjm, gm, hdm, hrm⟩ := C09_roundtrip ops hl statusOpts .sing .string (.sing (some (.str st.msg)))
+    trivial (by show GB.C09.Typed .string (.str st.msg); simp [GB.C09.Typed])
+  have htree : statusTree ops st = .ok (.obj [(keyCode, jc), (keyMessage, jm), (keyDetails, .arr [])]) := by
+    simp [statusTree, hjc, hjm, GB.C09.Res.bind]
+  refine ⟨tk.print (.obj [(keyCode, jc), (keyMessage, jm), (keyDetails, .arr [])]), ?_, ?_, tk.nonempty _⟩
+  · simp [jsonStatusEnc, htree]
+  · have h1 : objGet [(keyCode, jc), (keyMessage, jm), (keyDetails, GB.C09.J.arr [])] keyCode = some jc := by
+      simp [objGet, List.find?]
+    have h2 : objGet [(keyCode, jc), (keyMessage, jm), (keyDetails, GB.C09.J.arr [])] keyMessage = some jm := by
+      have : (keyCode == keyMessage) = false := by decide
+      simp [objGet, List.find?, this]
+    have h3 : objGet [(keyCode, jc), (keyMessage, jm), (keyDetails, GB.C09.J.arr [])] keyDetails = some (.arr []) := by
+      have a : (keyCode == keyDetails) = false := by decide
+      have b : (keyMessage == keyDetails) = false := by decide
+      simp [objGet, List.find?, a, b]
+    have hrc' : gc.read .int32 = .sing (some (.int st.code)) := by rw [hrc]; rfl
+    have hrm' : gm.read .string = .sing (some (.str st.msg)) := by rw [hrm]; rfl
+    cases st with
+    | mk code msg details =>
+      simp only at hd; subst hd
+      simp [jsonStatusDec, tk.roundtrip, statusOfTree, h1, h2, h3, hdc, hdm, hrc', hrm']
+
+/-- Consequently the hypothesis of `C10_failure_body` is met by the JSON transcoder on every status without details
+    (stated for the encoder/decoder pair above; `2^31` bounds gRPC codes by far). -/
+theorem C10_decode_law_no_details (ops : GB.C09.FloatOps) (hl : GB.C09.FloatLaws ops) (tk : Tokenizer)
+    (st : St) (b : Bytes) (hd : st.details = []) (hc : st.code < 2 ^ 31)
+    (henc : jsonStatusEnc ops tk st = .ok b) : jsonStatusDec ops tk b = some st ∧ b ≠ [] := by
+  obtain ⟨b', h1, h2, h3⟩ := C10_status_body_roundtrip_no_details ops hl tk st hd hc
+  rw [h1] at henc
+  injection henc with henc
+  subst henc
+  exact ⟨h2, h3⟩
 
 /-! ### a unary target that answers first and fails afterwards -/
 
